@@ -177,6 +177,9 @@ def _m_int(*a, **k):
                     raise SxUnsupported("int(s, 2) on a symbolic string with a concrete non-digit")
             elif not (c.lo >= 48 and c.hi <= 49):
                 if not bool(sor(c == 48, c == 49)):
+                    # CPython tolerates a sign, surrounding blanks, '_' between digits, a '0b' prefix and non-ASCII digits: none of that is modelled
+                    if bool(sor(c == 95, c == 43, c == 45, c == 98, c == 66, c == 32, sand(c >= 9, c <= 13), sand(c >= 28, c <= 31), c > 127)):
+                        raise SxUnsupported("int(s, 2): a character CPython may tolerate (sign, blank, underscore, prefix, non-ASCII digit)")
                     raise ValueError("invalid literal for int() with base 2")
             v = v * 2 + (c - 48)
         return v
